@@ -251,3 +251,54 @@ def decomposition_chain(ctx, crate, which=("hash_v1", "hash_with_dxdy"), clause=
                    "proj -> wrap -> rotate/scale -> discretize -> base_cell_coos -> depth0_bits(i, j, ij, xy) -> to_coos_in_base_cell -> build_hash(bits, ij.0, ij.1)" if why is None else why,
                    at=b.span, kind="N")
     return n
+
+
+def path_points(ctx, crate, clause="path-points"):
+    """N: `path_along_cell_side_internal` per (from, to) pair of cardinal vertices (12 finite keys), the
+    loop counter kept as a leaf: the point handed to `unproj` is
+        centre + off(from) + k * (off(to) - off(from)) / n_segments,   off(S, E, N, W) = (0,-1), (1,0), (0,1), (-1,0) / nside
+    with x wrapped into [0, 8) — read at sample values of (centre, nside, n_segments, k)."""
+    from sym import State
+    from rules.common import feval
+    fn = L + "path_along_cell_side_internal"
+    b = ctx.anchor(crate, fn, clause)
+    if b is None: return
+    names = crate.variant_names("compass_point::Cardinal")
+    OFF = {"S": (0, -1), "E": (1, 0), "N": (0, 1), "W": (-1, 0)}
+    if sorted(names) != sorted(OFF):
+        ctx.undecided(clause, fn + ":keys", "Cardinal variants %s" % names, at=b.span); return
+    oon = ('fld', ('deref', param("self")), crate.field_index("nested::Layer", "one_over_nside"))
+    pn = b.param_names()
+    bad = []; n = 0
+    for fi, fnm in enumerate(names):
+        for ti, tnm in enumerate(names):
+            if fi == ti: continue
+            st = State()
+            st.heap[('tmp', 'from')] = ('agg', 'adt:compass_point::Cardinal', fi, ()); st.heap[('tmp', 'to')] = ('agg', 'adt:compass_point::Cardinal', ti, ())
+            e = Engine(crate, opaque={"unproj", "ensures_x_is_positive"})
+            args = [param(x) for x in pn]
+            args[pn.index("from_vertex")] = ('ref_t', ('tmp', 'from')); args[pn.index("to_vertex")] = ('ref_t', ('tmp', 'to'))
+            e.run_body(b, args, st, fk=((fn, -1),), stack=(fn,)); ctx.functions |= e.visited_fns
+            un = [ev for ev in e.events.values() if ev.callee == "unproj" and len(ev.site) == 2]
+            ens = {ev.ret: ev for ev in e.events.values() if ev.callee == "ensures_x_is_positive"}
+            if len(un) != 1 or un[0].args[0] not in ens:
+                bad.append((fnm, tnm, "expected one unproj(ensures_x_is_positive(x), y)")); continue
+            X, Y = ens[un[0].args[0]].args[0], un[0].args[1]
+            # the loop counter: the int -> float cast whose operand is not n_segments
+            ks = {t for t in walk(X) if t[0] == 'cast' and t[1] == 'int_to_float' and not any(y == param("n_segments") for y in walk(t))} | \
+                 {t for t in walk(Y) if t[0] == 'cast' and t[1] == 'int_to_float' and not any(y == param("n_segments") for y in walk(t))}
+            if len(ks) != 1:
+                bad.append((fnm, tnm, "loop counter not identified")); continue
+            K = next(iter(ks))
+            for cx, cy, ns, seg, k in ((1.0, 0.5, 4, 3, 0.0), (1.0, 0.5, 4, 3, 2.0), (6.5, -1.25, 1, 5, 5.0), (0.03125, 0.0, 32, 2, 1.0)):
+                o = 1.0 / ns
+                env = {('fld', param("proj_center"), 0): cx, ('fld', param("proj_center"), 1): cy, oon: o, param("n_segments"): seg, K: k}
+                gx, gy = feval(X, env, e), feval(Y, env, e)
+                fx, fy = OFF[fnm]; tx, ty = OFF[tnm]
+                wx = cx + fx * o + k * (tx - fx) * o / seg; wy = cy + fy * o + k * (ty - fy) * o / seg
+                n += 1
+                if gx is None or gy is None or abs(gx - wx) > 1e-13 or abs(gy - wy) > 1e-13:
+                    bad.append((fnm, tnm, "centre (%s, %s), nside %s, %s segments, k = %s: (%s, %s), expected (%s, %s)" % (cx, cy, ns, seg, k, gx, gy, wx, wy))); break
+    ctx.report(clause, fn + ":points-on-the-segment-from-to", not bad and n >= 48,
+               "12 (from, to) pairs x 4 sample points: centre + off(from) + k (off(to) - off(from)) / n_segments, x wrapped" if not bad else
+               "from %s to %s: %s" % bad[0], at=b.span, kind="N")
